@@ -147,6 +147,8 @@ def plan(ch, tier):
         ops[0]["dt"] = ch.pick("lane_first_dt", [5.0, 0.5, 12.0])
     return {"knobs": knobs, "world": wk, "topo": topo, "nballs": nb, "ops": ops, "patches": patches, "react": react,
             "hold": hold, "lane_ball": lane_ball, "oversub": oversub, "bs_mode": bs_mode,
+            # the trough gives up after that many failed attempts in a row (0 = never) and must then say it is broken
+            "max_attempts": ch.pick("max_attempts", [0, 0, 0, 2, 3]) if wk["p_eject_fail"] else 0,
             # a mode that starts the multiball when the lock kicks a ball out (e.g. a scoop award)
             "mb_on_lock_eject": topo == "t2" and ch.flag("mb_on_lock_eject", 0.4)}
 
@@ -162,6 +164,10 @@ def execute(ctx, plan, prop):
         start_sw[-1] = "s_plunger"
         # the lane counts as a home position: the ball may stay there, nothing is queued until the player plunges
         patches["ball_devices"] = {"bd_plunger": {"tags": "home"}}
+    if plan.get("max_attempts"):
+        bd = dict(patches.get("ball_devices") or {})
+        bd[topo["trough"]] = dict(bd.get(topo["trough"]) or {}, max_eject_attempts=plan["max_attempts"])
+        patches["ball_devices"] = bd
     if plan.get("bs_mode"):
         patches["ball_saves"] = {"bs": {"enable_events": "bs_main_enable_never_posted"}}
     patches["virtual_platform_start_active_switches"] = ", ".join(start_sw)
@@ -311,7 +317,8 @@ def execute(ctx, plan, prop):
         kept elsewhere): nothing can be served until a ball comes home, which only the player can bring about."""
         if d.state != "waiting_for_ball" or world.count(d.name):
             return False
-        return not any(world.count(u) for u in upstream(d.name))
+        # (a source that has declared itself broken after max_eject_attempts can give nothing any more)
+        return not any(world.count(u) for u in upstream(d.name) if u not in broken)
 
 
     def ev_listener(name, ev_type, cb, kwargs):
@@ -349,6 +356,7 @@ def execute(ctx, plan, prop):
             failed_events.append((sim.now, name[len("balldevice_"):-len("_ball_eject_failed")]))
         elif name.startswith("balldevice_") and name.endswith("_broken"):
             broken.add(name[len("balldevice_"):-len("_broken")])
+            ctx.probe("device_broken_after_max_attempts")
     tap_events(sim, ev_listener)
 
     hold = plan.get("hold") or {}
@@ -622,6 +630,8 @@ def execute(ctx, plan, prop):
     for e in world.eject_log:
         if e["outcome"] not in ("fallback", "stuck", "shake") or e["dev"] in broken:
             continue
+        if e["dev"] in world.uncountable_devs:
+            continue        # a newcomer in the target confirmed that eject (arrival ambiguity): MPF rightly saw no failure
         retried = any(t > e["t"] and dv == e["dev"] for t, dv in world.coil_log)
         reported = any(t > e["t"] and dv == e["dev"] for t, dv in failed_events)
         if retried:
